@@ -23,7 +23,7 @@ Qed.
 
 Lemma wf_true_false v : wf_value true v = true -> wf_value false v = true.
 Proof.
-  destruct v as [| | | | | | | |k tys meta h| |bg s| | | | | |]; cbn [wf_value]; try (intros H; exact H).
+  destruct v as [| | | | | | | |k tys meta h| |bg s| | | | | | |]; cbn [wf_value]; try (intros H; exact H).
   intros H. apply andb_true_iff in H. destruct H as [H1 H2]. rewrite H1. destruct k; reflexivity.
 Qed.
 
@@ -166,6 +166,13 @@ Proof.
       unfold hgroup at 1. rewrite (cont_sub_autoser _ _ _ _ _ _ Hc).
       fold (hgroup ("_autoserialize", autoserialize_meta m c) l []).
       rewrite (decode_obj_fields [] [] m c l [] Hw H (Forall_nil _)). rewrite prune_load_nil. reflexivity.
+  - (* tensorboard writer *)
+    split.
+    + intros Hw _ sn st.
+      change (obj_sub st (decode_obj sn st) decode_container (subg (VTbWriter d q f s)))
+        with (type_checked st (RVal (VTbWriter d q f s))).
+      apply (tc_nonobj st sn (VTbWriter d q f s)); [reflexivity | reflexivity | discriminate].
+    + intros Hw _. reflexivity.
 Qed.
 
 (* ------------------------------------------------------------------ save_file / load_file *)
